@@ -1,6 +1,7 @@
 import FordModel.Proto
 import FordModel.PageTree
 import FordModel.PageTreeSpec
+import FordModel.PageAlias
 namespace Ford
 open Proto
 open Ford.PT
@@ -18,6 +19,12 @@ def splitOn (c : Char) (s : Str) : List Str :=
   go s []
 
 def splitList (c : Char) (s : Str) : List Str := if s.isEmpty then [] else splitOn c s
+
+/-- `name<GS>value` pairs, `RS`-separated -/
+def parseAliases (s : Str) : List (Str × Str) :=
+  (splitList RS s).map (fun kv => match splitOn GS kv with
+    | [k, v] => (k, v)
+    | _ => (kv, []))
 
 def parseLink (s : Str) : Link :=
   match splitOn GS s with
@@ -108,6 +115,14 @@ def dispatchC17 : List Str → Option (List Str)
     else if cmd == "c17.fix".toList then
       match args with
       | [base, cur, cwd, href] => some ["ok".toList, fixAttrib (absPath base) (absPath cur) (absPath cwd) href]
+      | _ => some ["bad-request".toList]
+    else if cmd == "c17.alias".toList then
+      match args with
+      | al :: lines => some ("ok".toList :: PA.aliasRun (parseAliases al) lines)
+      | _ => some ["bad-request".toList]
+    else if cmd == "c17.guard".toList then
+      match args with
+      | [topdir, name] => some ["ok".toList, if guardSkips (absPath topdir) name then ['1'] else ['0']]
       | _ => some ["bad-request".toList]
     else none
   | [] => none
